@@ -1,9 +1,149 @@
 import Driver.Util
+import MpcVerif.Model.Format
 
 namespace Drv.C14
+open Mpc Mpc.Fmt Drv
 
-/-- Line-protocol handler of property C14 (stub). -/
-def handle (_args : List String) : String := "bad-op"
+def hexOf (b : Bytes) : String :=
+  if b.isEmpty then "-" else Aes.hexOfBytes ⟨b.toArray⟩
+
+def bytesOf (s : String) : Option Bytes :=
+  if s == "-" then some [] else (Aes.bytesOfHex s).map (·.toList)
+
+def kindNum : TKind → Nat
+  | .undefined => 0 | .bool => 1 | .int => 2 | .uint => 3 | .float => 4 | .string => 5
+  | .struct => 6 | .array => 7 | .slice => 8 | .ptr => 9 | .nil => 10
+
+def kindOfNum : Nat → Option TKind
+  | 0 => some .undefined | 1 => some .bool | 2 => some .int | 3 => some .uint | 4 => some .float
+  | 5 => some .string | 6 => some .struct | 7 => some .array | 8 => some .slice | 9 => some .ptr
+  | 10 => some .nil | _ => none
+
+def b01 (b : Bool) : String := if b then "1" else "0"
+
+/-- canonical dump of a type -/
+def dumpInfo : Info → String
+  | .base k c b => s!"b{kindNum k}.{b01 c}.{b}"
+  | .arr false n b e => s!"a{n}.{b}({dumpInfo e})"
+  | .arr true n b e => s!"s{n}.{b}({dumpInfo e})"
+  | .ptr b e => s!"p{b}({dumpInfo e})"
+
+partial def dumpArg : IOArg → String
+  | .mk name ty comp => "{" ++ hexOf name ++ "|" ++ dumpInfo ty ++ "|[" ++ ",".intercalate (comp.map dumpArg) ++ "]}"
+
+def opLetter : Op → String
+  | .xor => "x" | .xnor => "n" | .and => "a" | .or => "o" | .inv => "i"
+
+def dumpGates (gs : List Gate) : String :=
+  if gs.isEmpty then "-" else
+  ";".intercalate (gs.map fun g => s!"{opLetter g.op}{g.in0}.{g.in1}.{g.out}")
+
+def dumpCircuit (c : PCircuit) : String :=
+  s!"ok ng={c.numGates} nw={c.numWires} in=[{",".intercalate (c.inputs.map dumpArg)}] " ++
+  s!"out=[{",".intercalate (c.outputs.map dumpArg)}] g={dumpGates c.gates}"
+
+def dumpRes : R PCircuit → String
+  | .ok c => dumpCircuit c
+  | .error .error => "error"
+  | .error .panic => "panic"
+  | .error .oversize => "oversize"
+  | .error .fuel => "fuel"
+
+/-- The harness's chunked reader: `chunk = 0`: deliver what is asked
+(`bytes.Reader`); `salt = 0`: at most `chunk` bytes per Read; otherwise
+`1 + (31 k + salt) mod chunk` bytes for the k-th Read. -/
+def mkCfg (bufSize chunk salt : Nat) : RdCfg :=
+  ⟨bufSize, fun req k =>
+    if chunk = 0 then req else if salt = 0 then chunk else 1 + (31 * k + salt) % chunk⟩
+
+/-! token-stream parser for circuit descriptions -/
+
+def parseInt? (s : String) : Option Int := s.toInt?
+
+partial def pType : List String → Option (Info × List String)
+  | [] => none
+  | t :: rest =>
+    match t.splitOn ":" with
+    | ["b", k, c, b] => do
+      let k ← kindOfNum (← k.toNat?)
+      some (.base k (c == "1") (← parseInt? b), rest)
+    | ["a", n, b] => do
+      let (e, rest) ← pType rest
+      some (.arr false (← n.toNat?) (← parseInt? b) e, rest)
+    | ["s", n, b] => do
+      let (e, rest) ← pType rest
+      some (.arr true (← n.toNat?) (← parseInt? b) e, rest)
+    | ["p", b] => do
+      let (e, rest) ← pType rest
+      some (.ptr (← parseInt? b) e, rest)
+    | _ => none
+
+mutual
+partial def pArg : List String → Option (IOArg × List String)
+  | [] => none
+  | nm :: rest => do
+    let name ← bytesOf nm
+    let (ty, rest) ← pType rest
+    match rest with
+    | [] => none
+    | nc :: rest =>
+      let (comp, rest) ← pArgs (← nc.toNat?) rest
+      some (.mk name ty comp, rest)
+partial def pArgs : Nat → List String → Option (List IOArg × List String)
+  | 0, rest => some ([], rest)
+  | n + 1, rest => do
+    let (a, rest) ← pArg rest
+    let (as, rest) ← pArgs n rest
+    some (a :: as, rest)
+end
+
+/-- `pm <fix> <bufSize> <chunk> <salt> <hex>`: fix bit 0 = parseString uses ReadFull, bit 1 = gate guard
+(what the harness's probes found in the code under test).
+`<ng> <nw> <nI> args… <nO> args… <gates>` -/
+def pCircuit (toks : List String) : Option PCircuit :=
+  match toks with
+  | ng :: nw :: ni :: rest => do
+    let (ins, rest) ← pArgs (← ni.toNat?) rest
+    match rest with
+    | no :: rest =>
+      let (outs, rest) ← pArgs (← no.toNat?) rest
+      match rest with
+      | [g] => some ⟨← ng.toNat?, ← nw.toNat?, ins, outs, ← parseGates g⟩
+      | _ => none
+    | _ => none
+  | _ => none
+
+def handle (args : List String) : String :=
+  match args with
+  | ["pm", fx, bs, ch, salt, hex] =>
+    match fx.toNat?, bs.toNat?, ch.toNat?, salt.toNat?, bytesOf hex with
+    | some fx, some bs, some ch, some salt, some b =>
+      dumpRes (parseMPCLC (mkCfg bs ch salt) ⟨fx % 2 == 1, fx / 2 % 2 == 1⟩ b)
+    | _, _, _, _, _ => "bad-op"
+  | ["pb", hex] =>
+    match bytesOf hex with
+    | some b => dumpRes (parseBristol b)
+    | none => "bad-op"
+  | "mm" :: toks =>
+    match pCircuit toks with
+    | some c => hexOf (marshal c)
+    | none => "bad-op"
+  | "mb" :: toks =>
+    match pCircuit toks with
+    | some c => hexOf (marshalBristol c)
+    | none => "bad-op"
+  | ["tp", hex] =>
+    match bytesOf hex with
+    | some b =>
+      match typeParse b with
+      | some t => "ok " ++ dumpInfo t
+      | none => "error"
+    | none => "bad-op"
+  | "ts" :: toks =>
+    match pType toks with
+    | some (t, []) => hexOf (typeString t)
+    | _ => "bad-op"
+  | _ => "bad-op"
 
 end Drv.C14
 
